@@ -67,7 +67,7 @@ func genC05(t *rapid.T) c5Case {
 	names := rapid.SampledFrom([][]string{{"g"}, {"g", "gen"}, {"deep", "a"}, {"x1"}, {"doc", "ab"}}).Draw(t, "gens")
 	for _, n := range names {
 		g := c5Gen{Name: n, Mode: rapid.SampledFrom([]string{"fixed", "new"}).Draw(t, "mode")}
-		for _, st := range []string{"counter", "helper", "refs", "docecho", "memo", "rotrefs", "docforeign", "sharedexpose"} {
+		for _, st := range []string{"counter", "helper", "refs", "docecho", "memo", "rotrefs", "docforeign", "sharedexpose", "modref"} {
 			if rapid.Bool().Draw(t, "state-"+st) {
 				g.State = append(g.State, st)
 			}
@@ -195,6 +195,23 @@ func (g c5Gen) script(c *c5Case) *script.Script {
 				text += fmt.Sprintf("var _$G_$T_rot%d @R%d\n\n", i, i)
 			}
 			pieces = append(pieces, script.Piece{Kind: "t", Text: text, Refs: g.RotRefs, Rotate: true})
+		case "modref":
+			// a reference to a type of a package of the module whose declared name differs from its directory name; whether a
+			// package imports it (or another selected package does) must not change the import name chosen for it
+			for i := range c.Mod.Pkgs {
+				x := &c.Mod.Pkgs[i]
+				if x.Name == "main" || x.Name == path.Base(x.Dir) || (x.Dir == "" && x.Name == path.Base(c.Mod.Path)) {
+					continue
+				}
+				pkgLevel, _ := x.Types()
+				for _, ti := range pkgLevel {
+					if !ti.Alias && !ti.Shadowed && (ti.Kind == "struct" || ti.Kind == "scalar" || ti.Kind == "map" || ti.Kind == "slice") && ti.Name[0] >= 'A' && ti.Name[0] <= 'Z' {
+						pieces = append(pieces, script.Piece{Kind: "t", Text: "\nvar _$G_$T_modref @R0\n", Refs: []string{c.Mod.PkgPath(x) + "." + ti.Name}})
+						break
+					}
+				}
+				break
+			}
 		case "sharedexpose":
 			// references through PkgExpose values that the generator keeps in a package-level variable and renders into every file
 			pieces = append(pieces, script.Piece{Kind: "sharedexpose", Text: "\nvar _$G_$T_shared0 @R0\n\nvar _$G_$T_shared1 @R1\n", Refs: []string{"strings.Builder", "context.Context"}})
@@ -388,7 +405,7 @@ func c5NonTrivial(c c5Case) bool {
 	for _, f := range c5Features(c) {
 		fs[f] = true
 	}
-	return fs["multi-package-selection"] && (fs["state-counter"] || fs["state-helper"] || fs["state-refs"] || fs["state-memo"] || fs["state-rotrefs"] || fs["state-docforeign"] || fs["state-sharedexpose"] || len(c.Real) > 0)
+	return fs["multi-package-selection"] && (fs["state-counter"] || fs["state-helper"] || fs["state-refs"] || fs["state-memo"] || fs["state-rotrefs"] || fs["state-docforeign"] || fs["state-sharedexpose"] || fs["state-modref"] || len(c.Real) > 0)
 }
 
 func TestC05(t *testing.T) {
